@@ -70,6 +70,10 @@ class DataFrameSchemaBackend(PolarsSchemaBackend):
             except SchemaErrors as exc:
                 error_handler.collect_errors(exc.schema_errors)
 
+        # We may have modified columns, for example by add_missing_columns,
+        # so regenerate column info
+        column_info = self.collect_column_info(check_obj, schema)
+
         components = self.collect_schema_components(
             check_obj,
             schema,
